@@ -182,7 +182,7 @@ def origin(fn, n, use=None):
         n = uncast(fn, n)
         if n is None or n["k"] != "var" or n.get("sc") != "local":
             return n
-        a = fn.aliases().get(n["n"])
+        a = fn.aliases().get(n["n"]) or fn.retdefs().get(n["n"])
         if a is not None:
             n = a
             continue
@@ -564,8 +564,8 @@ def cmp_norm(fn, cond, pol):
             n = fn.d(n["a"][0])
     # a boolean temporary (`const bool last = (i == n); if (!last)`) stands for the comparison it was initialised with
     for _ in range(4):
-        if n["k"] == "var" and n.get("sc") == "local" and n["n"] in fn.aliases():
-            m = fn.aliases()[n["n"]]
+        if n["k"] == "var" and n.get("sc") == "local" and (n["n"] in fn.aliases() or n["n"] in fn.retdefs()):
+            m = fn.aliases().get(n["n"]) or fn.retdefs()[n["n"]]
             while m is not None and m["k"] == "cast":
                 m = fn.d(m["a"][0])
             if m is not None and ((m["k"] == "bin" and m["op"] in NEG) or (m["k"] == "un" and m["op"] == "!")):
